@@ -160,9 +160,13 @@ class C12(flow.Spec):
                'subtrees still to visit + children done + following siblings + 1.  The specifications of ParserTotalConn2 / NonNamed / Calls now '
                'say "out of fuel only if the fuel is below the measure" (wp with the measure as the OutOfFuel case), sizes exist and are bounded '
                'by the pool (ParserTotalFuel.v: duplicate-free list of live descendants).  C12_parse_total_fuel_enough: ParseAML\'s fuel '
-               'parse_fuel(len + pool0) = 64 + 8*(len + pool0) >= 2 * pool whenever pool <= pool0 + 4*len + 2 (the first-pass bound).  NOT proved: '
-               'the fuel of the resolve loop (pass 3) and of parseDeferredBlocks (pass 4), hence no combined "ParseAML returns" theorem - in the '
-               'end-to-end theorems OutOfFuel is still an allowed outcome',
+               'parse_fuel(len + pool0) = 64 + 8*(len + pool0) >= 2 * pool whenever pool <= pool0 + 4*len + 2 (the first-pass bound).  '
+               'C12_parse_total_partial_fuel_insideSelf / _fuel_scopeOf: the inner loops of the resolve passes run on their own fuel poolFuel = pool '
+               'size + 2 and it suffices (ancestor climb bounded by the depth, child scan by the number of children; moveContents: lemma move_all).  '
+               'NOT proved: the fuel of the walks mergeScopeDirectives / relocateNamedObjects and of the outer resolve loop (a moved object can be '
+               'visited a second time below its new scope: the walk needs up to about 3 * pool, which the PROVEN bound of 4 objects per byte does not '
+               'put below parse_fuel; the outer loop needs "an object is relocated at most once" as a potential), and of parseDeferredBlocks (pass 4), '
+               'hence no combined "ParseAML returns" theorem - in the end-to-end theorems OutOfFuel is still an allowed outcome',
                'the unproved parts of C12_full_parse_total (no Panic / OutOfFuel and R for the later passes, outcome class of load) are covered '
                'by the correspondence of the extracted model (explicit Panic / OutOfFuel outcomes, all passes modelled) with the real parser '
                'and by the harness monitors (outcome class, watchdog, independent link checker, PrettyPrint)',
